@@ -428,3 +428,145 @@ func ruleAggSiblingCases(c *eng.Ctx) {
 	}
 	c.Floor(rule, len(a), 2)
 }
+
+// ruleAggFilterGate: every aggregate node that carries an alias filter (aggregateFilter) yields a
+// row only after that filter has been evaluated on it: every `return true, …` of its Next is
+// preceded, on every path from the source's Next(), by mapper.RunFilter(…, n.aggregateFilter).
+func ruleAggFilterGate(c *eng.Ctx) {
+	const rule = "AGG-FILTER-GATE"
+	n := 0
+	for _, fi := range c.P.FuncsIn("internal/planner") {
+		if fi.Decl.Body == nil || fi.Decl.Name.Name != "Next" || fi.Decl.Recv == nil || isTestFile(c.P, fi) {
+			continue
+		}
+		info := fi.Pkg.TypesInfo
+		// receiver type has a field aggregateFilter
+		recv := info.Defs[fi.Decl.Recv.List[0].Names[0]]
+		if recv == nil {
+			continue
+		}
+		pt, ok := recv.Type().(*types.Pointer)
+		if !ok {
+			continue
+		}
+		st, ok := pt.Elem().Underlying().(*types.Struct)
+		if !ok {
+			continue
+		}
+		has := false
+		for i := 0; i < st.NumFields(); i++ {
+			if st.Field(i).Name() == "aggregateFilter" {
+				has = true
+			}
+		}
+		if !has {
+			continue
+		}
+		flow := eng.NewFlow(info, fi.Decl.Body)
+		isGate := func(nd ast.Node) bool {
+			found := false
+			ast.Inspect(nd, func(x ast.Node) bool {
+				if call, ok := x.(*ast.CallExpr); ok && strings.HasSuffix(eng.CalleeName(info, call), "mapper.RunFilter") && len(call.Args) == 2 && isFieldNamed(info, call.Args[1], "aggregateFilter") {
+					found = true
+				}
+				return true
+			})
+			return found
+		}
+		ord := 0
+		ast.Inspect(fi.Decl.Body, func(m ast.Node) bool {
+			if _, ok := m.(*ast.FuncLit); ok {
+				return false
+			}
+			r, ok := m.(*ast.ReturnStmt)
+			if !ok || len(r.Results) != 2 {
+				return true
+			}
+			if tv, ok := info.Types[r.Results[0]]; !ok || tv.Value == nil || tv.Value.ExactString() != "true" {
+				return true
+			}
+			ord++
+			n++
+			p, ok := flow.PointOf(r)
+			if !ok {
+				return true
+			}
+			un := flow.ReachesWithout(p, isGate, nil)
+			c.Check(!un, rule, fmt.Sprintf("%s:yield#%d:after-alias-filter", shortFn(fi), ord), r.Pos(), "a row is yielded only after the alias filter accepted it",
+				"the aggregate node yields a row on a path that never evaluates its alias filter: filter: {_alias: {x: …}} lets rows through on that path (e.g. groups without values)")
+			return true
+		})
+	}
+	c.Floor(rule, n, 5)
+}
+
+// ruleFilterKeyNotAField: where the mapper turns a key of a request filter into a selection (a
+// join on a relation named by the key), the key has been told apart from the map-valued operator
+// _not — its value has the same map-of-maps shape as a relation filter.
+func ruleFilterKeyNotAField(c *eng.Ctx) {
+	const rule = "FILTER-KEY-NOT-A-FIELD"
+	n := 0
+	for _, fi := range c.P.FuncsIn("internal/planner/mapper") {
+		if fi.Decl.Body == nil || isTestFile(c.P, fi) {
+			continue
+		}
+		info := fi.Pkg.TypesInfo
+		ast.Inspect(fi.Decl.Body, func(m ast.Node) bool {
+			rs, ok := m.(*ast.RangeStmt)
+			if !ok || rs.Key == nil {
+				return true
+			}
+			mt, ok := info.TypeOf(rs.X).Underlying().(*types.Map)
+			if !ok || mt.Key().String() != "string" || mt.Elem().String() != "any" {
+				return true
+			}
+			k := eng.ObjOf(info, rs.Key)
+			if k == nil {
+				return true
+			}
+			// the key becomes a selection name
+			usedAsName := false
+			ast.Inspect(rs.Body, func(x ast.Node) bool {
+				if kv, ok := x.(*ast.KeyValueExpr); ok {
+					if id, ok := kv.Key.(*ast.Ident); ok && id.Name == "Name" && eng.ObjOf(info, kv.Value) == k {
+						usedAsName = true
+					}
+				}
+				return true
+			})
+			if !usedAsName {
+				return true
+			}
+			n++
+			guarded := false
+			ast.Inspect(rs.Body, func(x ast.Node) bool {
+				be, ok := x.(*ast.BinaryExpr)
+				if !ok || (be.Op != token.EQL && be.Op != token.NEQ) {
+					return true
+				}
+				var other ast.Expr
+				if eng.ObjOf(info, be.X) == k {
+					other = be.Y
+				} else if eng.ObjOf(info, be.Y) == k {
+					other = be.X
+				}
+				if other != nil {
+					if s, ok := eng.ConstString(info, other); ok && s == "_not" {
+						guarded = true
+					}
+				}
+				return true
+			})
+			ast.Inspect(rs.Body, func(x ast.Node) bool {
+				if call, ok := x.(*ast.CallExpr); ok && eng.CalleeName(info, call) == "strings.HasPrefix" && len(call.Args) == 2 && eng.ObjOf(info, call.Args[0]) == k {
+					guarded = true
+				}
+				return true
+			})
+			c.Check(guarded, rule, shortFn(fi)+":filter-key-as-selection", rs.Pos(), "operator keys are told apart before a key is taken for a relation",
+				"a key of a request filter is turned into a selection without excluding the _not operator: a filter {_not: {field: {…}}} makes the mapper look for a collection called _not and the request fails")
+			return true
+		})
+	}
+	c.Floor(rule, n, 1)
+}
